@@ -280,6 +280,8 @@ def execute(b: Built, op: dict, src: Built | None = None, foreign_tree=None):
         return {}
 
     def xid_kw(x):
+        if x == -1:
+            return {"data_id": [1]}      # an unhashable value
         return {"data_id": fl.real_did(x)} if x else {}
 
     try:
@@ -369,7 +371,9 @@ def execute(b: Built, op: dict, src: Built | None = None, foreign_tree=None):
                     r = tgt.sort_children(key=key, reverse=op["rev"], deep=op["deep"])
             elif name == "set_data":
                 kw = {}
-                if op["xid"]:
+                if op["xid"] == -1:
+                    kw["data_id"] = [1]      # an unhashable value
+                elif op["xid"]:
                     kw["data_id"] = fl.real_did(op["xid"])
                 if op["wc"] != "none":
                     kw["with_clones"] = op["wc"] == "true"
